@@ -860,6 +860,11 @@ func sdkRows() []srow {
 				rows = append(rows, srow{comp, key, b, false, opt, false, ""})
 			}
 		}
+		if comp == "spanlimits" && strings.Contains(key, "_COUNT_LIMIT") && !strings.Contains(key, "EVENT_ATTRIBUTE") && !strings.Contains(key, "LINK_ATTRIBUTE") {
+			// the raw limits option with every field zero ("retain nothing"): still an option, it beats the variables
+			rows = append(rows, srow{comp, key, "", false, true, true, ""})
+			rows = append(rows, srow{comp, key, valid, true, true, true, ""})
+		}
 		if comp == "spanlimits" || comp == "loglimits" {
 			// the largest int64: a limit that is never reached (and must not be used to size anything)
 			rows = append(rows, srow{comp, key, "9223372036854775807", false, false, false, ""})
@@ -1227,7 +1232,9 @@ func runSDKRow(k *vf.Case, r srow) {
 		var popts []sdktrace.TracerProviderOption
 		rec := &probeProc{}
 		popts = append(popts, sdktrace.WithSpanProcessor(rec), sdktrace.WithSampler(sdktrace.AlwaysSample()))
-		if r.option {
+		if r.option && r.optBad {
+			popts = append(popts, sdktrace.WithRawSpanLimits(sdktrace.SpanLimits{}))
+		} else if r.option {
 			popts = append(popts, sdktrace.WithRawSpanLimits(sdktrace.SpanLimits{AttributeValueLengthLimit: 3, AttributeCountLimit: 3, EventCountLimit: 3, LinkCountLimit: 3, AttributePerEventCountLimit: 3, AttributePerLinkCountLimit: 3}))
 		}
 		var tp *sdktrace.TracerProvider
@@ -1282,6 +1289,9 @@ func runSDKRow(k *vf.Case, r srow) {
 		}
 		if r.option {
 			want = 3
+		}
+		if r.option && r.optBad {
+			want = 0 // WithRawSpanLimits(SpanLimits{}): zero limits, used as given
 		}
 		if want > full {
 			want = full
